@@ -252,3 +252,32 @@ def dict_entries(fn, var):
                 if kw.arg:
                     out[kw.arg] = kw.value
     return out
+
+
+_PUB = [('._shape', '.shape'), ('._dtype', '.dtype'), ('._size', '.size'), ('._path', '.path'), ('._metadata', '.metadata'),
+        ('._accessmode', '.accessmode'), ('._datadir', '.datadir'), ('.dtype.itemsize', '.itemsize')]
+
+
+def pubnorm(text_or_node):
+    """Normalised text in which attributes that back a plain getter property are spelled like the property
+    (`a._shape` == `a.shape`, `a.dtype.itemsize` == `a.itemsize`): one spelling for rules that compare texts."""
+    t = text_or_node if isinstance(text_or_node, str) else norm(text_or_node)
+    for a, b in _PUB:
+        t = t.replace(a, b)
+    return t
+
+
+def arg_for(call, callee, name):
+    """Argument of `call` bound to parameter `name` of the resolved callee (a srcmodel.Func): by keyword, or by the
+    parameter's position in the callee's own signature (minus self for bound calls)."""
+    for k in call.keywords:
+        if k.arg == name:
+            return k.value
+    params = list(callee.params)
+    if callee.cls is not None and params and (isinstance(call.func, ast.Attribute) or callee.name == '__init__'):
+        params = params[1:]
+    if name in params:
+        i = params.index(name)
+        if i < len(call.args) and not any(isinstance(a, ast.Starred) for a in call.args[:i + 1]):
+            return call.args[i]
+    return None
